@@ -73,6 +73,9 @@ def make_scripted():
     return Scripted
 
 
+CRASHES = []
+
+
 def run_scripted(prec, maxit, scripts):
     """runs len(scripts) solves on one unit; returns list of (outcome term, stored, evaluations)"""
     from pyroll.core import Profile
@@ -98,6 +101,9 @@ def run_scripted(prec, maxit, scripts):
                 out = f"(Raised {u.k}%nat)"
             except ValueError:
                 out = f"(ShapeError {u.k}%nat)"
+            except Exception as e:      # noqa  (nothing in the script raises anything else: the solve itself failed)
+                out = "(Converged 0%nat)"
+                CRASHES.append((prec, maxit, [list(map(str, sc)) if sc != 'raise' else sc for sc in scripts], len(obs) + 1, f"{type(e).__name__}: {e}"))
         finally:
             lg.removeHandler(h)
             lg.setLevel(old)
@@ -153,68 +159,73 @@ def ref_close(old, cur, prec):
     return all(abs(Fraction(c) - Fraction(o)) <= abs(Fraction(o)) * Fraction(prec) for o, c in zip(old, cur))
 
 
-def scripted_oracle(chk, prec, maxit, scripts, obs):
-    """property on a FRESH unit's first solve: bounded; no warning only if two consecutive iterates agree"""
-    out, stored, k = obs[0]
-    script = scripts[0]
-    data = {'precision': prec, 'max_iteration_count': maxit, 'script': script}
+def scripted_oracle(chk, prec, maxit, scripts, obs, j=0):
+    """property on one solve of a unit (the first on a fresh unit, j = 0, or a later one on the same unit): bounded; no warning only if two
+    consecutive iterates OF THIS SOLVE agree; a solve that neither reports convergence nor warns (and did not raise) ended silently"""
+    out, stored, k = obs[j]
+    script = scripts[j]
+    which = "" if j == 0 else f"solve {j + 1} of the same unit: "
+    data = {'precision': prec, 'max_iteration_count': maxit, 'script': script} if j == 0 else \
+        {'precision': prec, 'max_iteration_count': maxit, 'scripts': scripts[:j + 1], 'solve': j + 1}
     if k > maxit:
-        chk.fail('bound', f"{k} iterations with max_iteration_count={maxit}", data)
+        chk.fail('bound', f"{which}{k} iterations with max_iteration_count={maxit}", data)
+        return
+    if out.startswith('(Raised') or out.startswith('(ShapeError'):
         return
     vecs = script[:k]
     finite = all(v != 'raise' and all(math.isfinite(x) for x in v) for v in vecs) and len({len(v) for v in vecs if v != 'raise'}) <= 1
     if not finite or not vecs or not vecs[0]:
+        return
+    if out == '(Converged 0%nat)':
+        chk.fail('silent-non-convergence', f"{which}ended after {k} iterations without reporting convergence and without the non-convergence warning", data)
         return
     m = re.match(r'\(Converged (\d+)', out)
     if m:
         i = int(m.group(1))
         if i < 2 or not ref_close(vecs[i - 2], vecs[i - 1], prec):
             if not chk.failures:
-                chk.fail('honest-convergence', f"finished after {i} iterations although iterates {i - 1} and {i} do not agree within {prec}", data)
+                chk.fail('honest-convergence', f"{which}finished after {i} iteration(s) without the warning although "
+                         + ("a single iterate has no predecessor in this solve to agree with" if i < 2 else f"iterates {i - 1} and {i} do not agree within {prec}"), data)
     elif out == 'Warned':
         for i in range(2, k + 1):
             if ref_close(vecs[i - 2], vecs[i - 1], prec):
-                chk.fail('spurious-warning', f"warned although iterates {i - 1} and {i} agree within {prec}", data)
+                chk.fail('spurious-warning', f"{which}warned although iterates {i - 1} and {i} agree within {prec}", data)
                 return
 
 
 def scripted_oracle_later(chk, prec, maxit, scripts, obs):
-    """the same for every LATER solve of the same unit (histories): the first iterate is compared with what the unit remembered from the
-    previous solve; a solve that neither reports convergence nor warns (and did not raise) ended silently"""
+    """every LATER solve of the same unit (histories) is judged like the first: nothing a previous solve remembered counts as an iterate"""
     for j in range(1, len(obs)):
-        out, stored, k = obs[j]
-        k_prev = sum(o[2] for o in obs[:j]) if False else None
-        script = scripts[j]
-        data = {'precision': prec, 'max_iteration_count': maxit, 'scripts': scripts[:j + 1], 'solve': j + 1}
-        if out.startswith('(Raised') or out.startswith('(ShapeError'):
-            continue
-        vecs = script[:k]
-        finite = all(v != 'raise' and all(math.isfinite(x) for x in v) for v in vecs) and len({len(v) for v in vecs if v != 'raise'}) <= 1
-        if not finite or not vecs or not vecs[0]:
-            continue
-        prev0 = obs[j - 1][1]
-        if prev0 is not None and (len(prev0) != len(vecs[0]) or not all(math.isfinite(x) for x in prev0)):
-            prev0 = None
-
-        def pred(i):        # what iterate i (1-based) is compared with
-            return vecs[i - 2] if i >= 2 else prev0
-        if out == '(Converged 0%nat)':
-            chk.fail('silent-non-convergence', f"solve {j + 1} of the same unit ended after {k} iterations without reporting convergence and without the "
-                     "non-convergence warning", data)
+        if chk.failures:
             return
-        m = re.match(r'\(Converged (\d+)', out)
-        if m:
-            i = int(m.group(1))
-            p = pred(i) if 1 <= i <= len(vecs) else None
-            if p is not None and not ref_close(p, vecs[i - 1], prec):
-                chk.fail('honest-convergence', f"solve {j + 1}: finished after {i} iterations although iterate {i} does not agree with its predecessor within {prec}", data)
-                return
-        elif out == 'Warned':
-            for i in range(1, k + 1):
-                p = pred(i)
-                if p is not None and ref_close(p, vecs[i - 1], prec):
-                    chk.fail('spurious-warning', f"solve {j + 1}: warned although iterate {i} agrees with its predecessor within {prec}", data)
-                    return
+        scripted_oracle(chk, prec, maxit, scripts, obs, j)
+
+
+def root_vector_oracle(chk, rng):
+    """'all persisted result values': the vector a unit compares from iteration to iteration holds every numeric element of every root hook result -
+    scalars of any numeric type, and every element of arrays and lists of any shape; non-numeric results contribute nothing"""
+    from typing import Any
+    from pyroll.core.hooks import Hook, HookHost, root_hooks
+
+    class K(HookHost):
+        a = Hook[Any](); b = Hook[Any](); c = Hook[Any](); d = Hook[Any](); e = Hook[Any](); f = Hook[Any](); g = Hook[Any](); s = Hook[Any]()
+    n = rng.randint(2, 6)
+    vals = dict(a=1.5, b=np.arange(1.0, n + 1.0), c=[4.0, 5.0], d="text", e=np.array([[1.0, 2.0], [3.0, 4.0]]), f=7, g=np.float64(2.5), s={"x"})
+    expect = [1.5] + list(np.arange(1.0, n + 1.0)) + [4.0, 5.0, 1.0, 2.0, 3.0, 4.0, 7.0, 2.5]
+    for name, v in vals.items():
+        getattr(K, name)(lambda self, v=v: v)
+    saved = list(root_hooks)
+    root_hooks[:] = [getattr(K, name) for name in vals]
+    try:
+        got = [float(x) for x in K().evaluate_and_set_hooks()]
+    except Exception as e:      # noqa
+        got = f"{type(e).__name__}: {e}"
+    finally:
+        root_hooks[:] = saved
+    chk.cov['evaluations'] += 1
+    if got != expect:
+        chk.fail('result-vector', f"root hooks with results {vals}: the vector of persisted values compared between iterations is {got}, every numeric element "
+                 f"gives {expect}", {'results': {k: repr(v) for k, v in vals.items()}})
 
 
 # ---- real sequences: supporting runs ------------------------------------------------------------------------
@@ -268,6 +279,29 @@ def numeric_state(seq):
                 out.append(float(getattr(prof, k)))
             out.append(float(prof.cross_section.area))
     return out
+
+
+def reconfigured_limit_oracle(chk):
+    """'at most the configured number of iterations': a unit that was solved before follows the limit configured at the time of the new solve
+    (an explicit max_iteration_count on the unit, or the configured default), not the one it remembered from the previous solve"""
+    from pyroll.core import Profile, PassSequence, Transport, Config
+    seq = PassSequence([Transport(label='t1', duration=1), Transport(label='t2', duration=2)], label='line')
+    mk = lambda d: Profile.round(diameter=d, temperature=1473.15, strain=0, material="C45", length=1, flow_stress=100e6)      # noqa
+    seq.solve(mk(30e-3))
+    saved = Config.DEFAULT_MAX_ITERATION_COUNT
+    h, lg, old = grab()
+    try:
+        Config.DEFAULT_MAX_ITERATION_COUNT = 1      # range(1, 1): no iteration fits any more, every solve of every unit has to warn
+        seq.solve(mk(20e-3))
+        fin = [r.getMessage() for r in h.records if 'Finished solving' in r.getMessage()]
+    finally:
+        Config.DEFAULT_MAX_ITERATION_COUNT = saved
+        lg.removeHandler(h)
+        lg.setLevel(old)
+    chk.cov['evaluations'] += 1
+    if fin:
+        chk.fail('stale-iteration-limit', f"PassSequence([Transport, Transport]) solved once, the default iteration limit lowered to 1, solved again: "
+                 f"{len(fin)} unit solve(s) still iterate and report convergence ({fin[0]!r}) - the limit remembered from the first solve is used", {})
 
 
 def real_runs(chk):
@@ -416,6 +450,11 @@ def run(chk):
         cases.append((prec, maxit, scripts))
         dist[kind] = dist.get(kind, 0) + 1
         chk.cov['evaluations'] += 1
+        if CRASHES:
+            pr, mi, sc, which, what = CRASHES[0]
+            chk.fail('solve-raises', f"solve {which} of a unit with max_iteration_count={mi}, iteration_precision={pr} raises {what} instead of returning a profile "
+                     "(with or without the non-convergence warning)", {'precision': pr, 'max_iteration_count': mi, 'scripts': sc})
+            break
         scripted_oracle(chk, prec, maxit, scripts, obs)
         if not chk.failures:
             scripted_oracle_later(chk, prec, maxit, scripts, obs)
@@ -442,6 +481,10 @@ def run(chk):
         chk.unshown_add(f"correspondence:case{i}", "model and implementation disagree on " + str(cases[i])[:800])
     # a deviation from the loop model alone is not promoted to a failing input: the model fixes details (exactly
     # max_iteration_count - 1 iterations) that the property leaves open
+    if not chk.failures:
+        root_vector_oracle(chk, rng)
+    if not chk.failures:
+        reconfigured_limit_oracle(chk)
     real_runs(chk)
     chk.cov['rule'] = ("scripted units (root-hook result vectors follow a generated script of dyadic numbers: converging, exact-boundary, "
                        "oscillating, nan/inf, changing shapes, raising), 1-3 consecutive solves per unit, iteration limits 0-8, dyadic "
